@@ -100,6 +100,15 @@ def peer_open_bytes(cfg, spec):
     return rc.frame(rc.OPEN, body), accept, reasons, has65
 
 
+# well-framed OPEN bodies whose optional parameters cannot be decoded
+GARBLED = [
+    rc.open_body(4, 65002, 90, '10.0.0.2', rc.opt_param(2, rc.cap(69, struct.pack('!HBB', 3, 3, 1)))),       # ADD-PATH, unknown family
+    rc.open_body(4, 65002, 90, '10.0.0.2', rc.opt_param(2, rc.cap(65, b'\x00\x01'))),                        # 4-octet AS, 2 octets
+    rc.open_body(4, 65002, 90, '10.0.0.2', rc.opt_param(2, rc.cap(1, b'\x00\x01')))[:-1] + b'',              # multiprotocol, cut short
+    rc.open_body(4, 65002, 90, '10.0.0.2', b'')[:-1] + b'\x0a' + b'\x02\x06\x01\x04',                        # parameter length beyond the message
+]
+
+
 def next_attempt(sim, limit=400.0):
     r = sim.reactor
     end = r.now + limit
@@ -158,6 +167,14 @@ def run_case(case):
             r.deliver_io(0)
             r.settle(fire_due=True)
         msg, accept, reasons, peer65 = peer_open_bytes(cfg, spec)
+        if last and case.get('garbled_first') is not None:
+            # first an OPEN the agent cannot digest; if it lets that pass (no answer, still OpenSent) the real OPEN that
+            # follows is negotiated exactly as a first one
+            mark0 = sim.mark()
+            r.peer_send(c, rc.frame(rc.OPEN, GARBLED[case['garbled_first'] % len(GARBLED)]))
+            r.settle(fire_due=True)
+            if sim.state != 'OPENSENT' or any(k in ('write', 'loseConnection') for _, k, _, _ in sim.since(mark0)):
+                return out          # the agent reacted to the garbled OPEN: a different story, not this case
         mark = sim.mark()
         r.peer_send(c, msg)
         r.settle(fire_due=True)
@@ -343,7 +360,7 @@ def case_strategy(draw):
     nseg = draw(st.integers(1, 3))
     path = [[draw(st.sampled_from([1, 2])), draw(st.lists(vs.asn4, min_size=1, max_size=4))] for _ in range(nseg)]
     return {'cfg': cfg, 'history': hist, 'observed': obs, 'observed_accept': accept, 'as_path': path, 'agg_as': draw(vs.asn4),
-            'late_lost': draw(st.booleans())}
+            'late_lost': draw(st.booleans()), 'garbled_first': draw(st.sampled_from([None, None, None, 0, 1, 2, 3]))}
 
 
 def shards(tier):
